@@ -502,6 +502,14 @@ long long c_voronoi(long long nrows, long long ncols,
     long long i, j, jmin, ierr, idxcell;
     double xy[2], dx, dy, dist, distmin;
 
+    /* Check inputs: at least one point to attribute the cells to,
+     * and a non-empty grid to locate them */
+    if(npoints < 1)
+        return GRID_ERROR + __LINE__;
+
+    if(nrows < 1 || ncols < 1)
+        return GRID_ERROR + __LINE__;
+
     for(j=0; j<npoints; j++)
         weights[j] = 0;
 
